@@ -104,6 +104,8 @@ Proof.
     destruct cascade; repeat apply allcells_filter_rows; auto.
   - unfold drop_elems_full, drop_pipe_refs, drop_elems. repeat apply allcells_filter_rows; auto.
   - unfold drop_pipe_refs, drop_elems, drop_labels. repeat apply allcells_filter_rows; auto.
+  - now apply allcells_redirect.
+  - unfold select_res. now apply allcells_filter_rows.
 Qed.
 
 Lemma allcells_exec Q s ops n : allcells Q n -> allcells Q (exec s ops n).
@@ -215,6 +217,30 @@ Proof.
   apply drop_elems_agree. unfold drop_elems. now apply agree_in_filter_rows.
 Qed.
 
+Lemma sel_pred_agree sel1 sel2 selp1 selp2 js n t r : agree_in sel1 sel2 n -> agree_in selp1 selp2 n ->
+  In t n -> In r (t_rows t) -> sel_pred sel1 selp1 js n (t_name t) r = sel_pred sel2 selp2 js n (t_name t) r.
+Proof.
+  intros H HP Ht Hr. unfold sel_pred.
+  assert (K : kept_labels sel1 js n "pipe" = kept_labels sel2 js n "pipe").
+  { apply flat_map_ext_in. intros t0 Ht0. destruct (String.eqb (t_name t0) "pipe"); auto.
+    f_equal. apply filter_ext_in. intros r0 Hr0. now apply (keep_row_agree _ _ _ n). }
+  rewrite K, (keep_row_agree _ _ _ n t r H Ht Hr).
+  assert (F : forallb (fun c => negb (selp1 (t_name t) c) || memz (c_val c) (kept_labels sel2 js n "pipe")) (r_cells r) =
+              forallb (fun c => negb (selp2 (t_name t) c) || memz (c_val c) (kept_labels sel2 js n "pipe")) (r_cells r)).
+  { apply forallb_ext_in. intros c Hc. now rewrite (HP t r c). }
+  rewrite F. reflexivity.
+Qed.
+
+Lemma select_res_agree sel1 sel2 selp1 selp2 js n : agree_in sel1 sel2 n -> agree_in selp1 selp2 n ->
+  select_res sel1 selp1 js n = select_res sel2 selp2 js n.
+Proof.
+  intros H HP. apply filter_rows_ext_in. intros t r Ht Hr.
+  rewrite (sel_pred_agree _ _ _ _ js n t r H HP Ht Hr).
+  destruct (prefix "res_" (t_name t)); auto. destruct (parent (t_name t)) as [e|]; auto.
+  f_equal. f_equal. apply filter_ext_in. intros r0 Hr0. apply In_rows_of in Hr0. destruct Hr0 as [t0 [Ht0 [<- Hr0]]].
+  now apply sel_pred_agree.
+Qed.
+
 Definition sems_agree (s1 s2 : sem) (cs : colset) (n : net) : Prop :=
   agree (selJ s1 cs) (selJ s2 cs) n /\ agree (selP s1) (selP s2) n.
 
@@ -244,6 +270,8 @@ Proof.
   - destruct cascade; auto. apply drop_elems_full_agree; apply agree_in_filter_rows; now apply agree_agree_in.
   - apply drop_elems_full_agree; now apply agree_agree_in.
   - f_equal. unfold drop_pipe_refs. apply drop_elems_agree. now apply agree_agree_in.
+  - apply redirect_agree. now apply agree_agree_in.
+  - apply select_res_agree; now apply agree_agree_in.
 Qed.
 
 (* the hypotheses under which today's code meets the specification: the tuple set is exactly the set
@@ -499,6 +527,8 @@ Proof.
     destruct cascade; repeat apply plain_filter_rows; auto.
   - unfold drop_elems_full, drop_pipe_refs, drop_elems. repeat apply plain_filter_rows; auto.
   - unfold drop_pipe_refs, drop_elems, drop_labels. repeat apply plain_filter_rows; auto.
+  - now apply plain_redirect.
+  - unfold select_res. now apply plain_filter_rows.
 Qed.
 
 Lemma junction_special : special "junction" = true. Proof. reflexivity. Qed.
@@ -647,12 +677,42 @@ Definition ri_guard (o : op) (n : net) : Prop :=
   match o with
   | Reindex _ e _ | ContElem _ e _ => elem_guard e
   | ContAll _ order _ => Forall elem_guard order
-  | Fuse _ j1 _ => In j1 (labels_of "junction" n)
+  | Fuse _ j1 _ | FuseKeep _ j1 _ => In j1 (labels_of "junction" n)
   | DropJ _ _ cascade => cascade = true
   | _ => True
   end.
 Definition cover_hyp (s : sem) (o : op) (n : net) : Prop :=
   match o with DropElems _ _ | DropP _ => True | _ => covers (selJ s (cs_of o)) n end.
+
+(* fuse_junctions(drop=False): references are redirected, the junctions stay *)
+Lemma redirect_RI_J f j1 js n : RI_J n -> In j1 (labels_of "junction" n) -> RI_J (redirect (on_cell f) j1 js n).
+Proof.
+  intros H Hj1 tn r' c' Hr Hcc Hkd. unfold redirect in *.
+  rewrite labels_of_rows_of, rows_of_map_rows, map_map. simpl. rewrite <- labels_of_rows_of.
+  rewrite rows_of_map_rows in Hr. apply in_map_iff in Hr. destruct Hr as [r [<- Hr]].
+  simpl in Hcc. apply in_map_iff in Hcc. destruct Hcc as [c [<- Hcc]].
+  destruct (on_cell f tn c && memz (c_val c) js); simpl in *; auto. eapply H; eauto.
+Qed.
+
+Lemma rows_of_select_res_nonres sel selp js n tn : prefix "res_" tn = false ->
+  rows_of tn (select_res sel selp js n) = rows_of tn (select sel selp js n).
+Proof.
+  intros P. unfold select_res, select. rewrite !rows_of_filter_rows. apply filter_ext_in. intros r _.
+  rewrite P. unfold sel_pred. rewrite P. reflexivity.
+Qed.
+
+Lemma res_is_special tn : prefix "res_" tn = true -> special tn = true.
+Proof. intros H. unfold special. rewrite H. now rewrite !orb_true_r. Qed.
+
+Lemma select_res_RI_J f selp js n : plain n -> covers f n -> RI_J n -> RI_J (select_res (on_cell f) selp js n).
+Proof.
+  intros Hp Hc H tn r c Hr Hcc Hkd. destruct (prefix "res_" tn) eqn:P.
+  - assert (Hp' : plain (select_res (on_cell f) selp js n)) by (unfold select_res; now apply plain_filter_rows).
+    rewrite (Hp' tn r (res_is_special tn P) Hr) in Hcc. contradiction.
+  - rewrite rows_of_select_res_nonres in Hr by exact P.
+    rewrite labels_of_rows_of, rows_of_select_res_nonres by reflexivity. rewrite <- labels_of_rows_of.
+    exact (select_RI_J f selp js n Hp Hc H tn r c Hr Hcc Hkd).
+Qed.
 
 Lemma cont_all_RI_J s cs order start n : selP_sane s -> Forall elem_guard order -> covers (selJ s cs) n ->
   RI_J n -> RI_J (cont_all s cs order start n).
@@ -678,6 +738,8 @@ Proof.
     + unfold drop_elems. now apply plain_filter_rows.
     + now apply drop_elems_RI_J.
   - apply drop_pipes_RI_J. unfold drop_pipe_refs. now apply drop_elems_RI_J.
+  - now apply redirect_RI_J.
+  - now apply select_res_RI_J.
 Qed.
 
 Fixpoint guards (s : sem) (ops : list op) (n : net) : Prop :=
@@ -712,13 +774,13 @@ Qed.
 (* ------------------------------------------------------------------ frame *)
 (* the dropping / selecting operations only remove rows: every row left is an unchanged row of the net *)
 Definition removes_only (o : op) : bool :=
-  match o with Select _ _ | DropJ _ _ _ | DropElems _ _ | DropP _ => true | _ => false end.
+  match o with Select _ _ | SelectRes _ _ | DropJ _ _ _ | DropElems _ _ | DropP _ => true | _ => false end.
 
 Lemma frame_rows_unchanged s o n tn r : removes_only o = true -> In r (rows_of tn (step s o n)) -> In r (rows_of tn n).
 Proof.
   intros Hr H. destruct o; try discriminate; simpl in H;
     try destruct cascade;
-    unfold select, drop_elems_full, drop_pipe_refs, drop_elems, drop_labels in H;
+    unfold select, select_res, drop_elems_full, drop_pipe_refs, drop_elems, drop_labels in H;
     repeat (rewrite rows_of_filter_rows in H; apply filter_In in H; destruct H as [H _]); exact H.
 Qed.
 
@@ -1020,6 +1082,18 @@ Proof.
   - intros. reflexivity.
 Qed.
 
+Lemma redirect_RI_P f j1 js n : selJ_noP f n -> RI_P n -> RI_P (redirect (on_cell f) j1 js n).
+Proof.
+  intros HJ H tn r' c' Hr Hcc Hkd. unfold redirect in *. rewrite labels_of_rows_of, rows_of_map_rows, map_map. simpl.
+  rewrite rows_of_map_rows in Hr. apply in_map_iff in Hr. destruct Hr as [r [<- Hr]].
+  simpl in Hcc. apply in_map_iff in Hcc. destruct Hcc as [c [<- Hcc]].
+  rewrite <- labels_of_rows_of.
+  destruct (on_cell f tn c && memz (c_val c) js) eqn:B.
+  - simpl in Hkd. apply andb_true_iff in B. destruct B as [B _]. unfold on_cell in B.
+    exfalso. exact (HJ tn r c Hr Hcc B Hkd).
+  - eapply H; eauto.
+Qed.
+
 Lemma kept_labels_rows_of sel js n e : kept_labels sel js n e = map r_label (filter (keep_row sel js e) (rows_of e n)).
 Proof.
   induction n as [|t n IH]; simpl; auto. rewrite filter_app, map_app, <- IH. f_equal.
@@ -1047,6 +1121,17 @@ Proof.
   rewrite (Hu "pipe" r0 c0 Hr0 Hc0 eq_refl). reflexivity.
 Qed.
 
+Lemma select_res_RI_P sel f js n : plain n -> coversP f n -> pipe_unhit f n -> RI_P n ->
+  RI_P (select_res sel (on_cell f) js n).
+Proof.
+  intros Hp Hc Hu H tn r c Hr Hcc Hkd. destruct (prefix "res_" tn) eqn:P.
+  - assert (Hp' : plain (select_res sel (on_cell f) js n)) by (unfold select_res; now apply plain_filter_rows).
+    rewrite (Hp' tn r (res_is_special tn P) Hr) in Hcc. contradiction.
+  - rewrite rows_of_select_res_nonres in Hr by exact P.
+    rewrite labels_of_rows_of, rows_of_select_res_nonres by reflexivity. rewrite <- labels_of_rows_of.
+    exact (select_RI_P sel f js n Hp Hc Hu H tn r c Hr Hcc Hkd).
+Qed.
+
 Definition ri_guard_p (o : op) : Prop :=
   match o with
   | Reindex _ e _ | ContElem _ e _ => elem_guard_p e
@@ -1067,6 +1152,8 @@ Proof.
   - subst cascade. now apply (step_drop_RI_P s (DropJ cs js true)).
   - now apply (step_drop_RI_P s (DropElems cs js)).
   - now apply (step_drop_RI_P s (DropP ps)).
+  - now apply redirect_RI_P.
+  - now apply select_res_RI_P.
 Qed.
 
 (* for today's code both selector hypotheses follow from "pipe references live in valve.element" *)
@@ -1127,3 +1214,94 @@ Proof.
   - intros [r [E Hr]]. apply filter_In in Hr. destruct Hr as [Hr K]. simpl in K. subst l. split; eauto. now apply memz_In.
   - intros [[r [E Hr]] Hj]. subst l. exists r. split; auto. apply filter_In. split; auto. simpl. now apply memz_In.
 Qed.
+
+(* ------------------------------------------------------------------ frame in terms of the payload:
+   whatever an operation does, every row it leaves is a row of the net before with the same cells of kind KN
+   (the harness ships all non-reference columns of a row - element, geodata and result rows - as one KN cell) *)
+Definition is_kn (c : cell) : bool := match c_kind c with KN => true | _ => false end.
+Definition kn_cells (r : row) : list cell := filter is_kn (r_cells r).
+Definition noKN (f : selector) (n : net) : Prop := allcells (fun tn col k => f tn col k = true -> k <> KN) n.
+
+Lemma filter_kn_map (p : cell -> bool) (g : cell -> Z) (l : list cell) :
+  (forall c, In c l -> p c = true -> c_kind c <> KN) ->
+  filter is_kn (map (fun c => if p c then set_val c (g c) else c) l) = filter is_kn l.
+Proof.
+  induction l as [|c l IH]; intros H; simpl; auto.
+  rewrite IH by (intros c0 Hc0; apply H; now right).
+  destruct (p c) eqn:P; auto.
+  assert (K : c_kind c <> KN) by (apply H; [now left | exact P]).
+  unfold is_kn. simpl. destruct (c_kind c); auto. contradiction.
+Qed.
+
+Definition keeps_kn (n n' : net) : Prop :=
+  forall tn r', In r' (rows_of tn n') -> exists r, In r (rows_of tn n) /\ kn_cells r' = kn_cells r.
+
+Lemma keeps_kn_trans a b c : keeps_kn a b -> keeps_kn b c -> keeps_kn a c.
+Proof.
+  intros H1 H2 tn r'' Hr. destruct (H2 tn r'' Hr) as [r' [Hr' E']]. destruct (H1 tn r' Hr') as [r [Hr0 E]].
+  exists r. split; auto. congruence.
+Qed.
+
+Lemma keeps_kn_filter k n : keeps_kn n (filter_rows k n).
+Proof. intros tn r Hr. rewrite rows_of_filter_rows in Hr. apply filter_In in Hr. exists r. tauto. Qed.
+
+Lemma keeps_kn_relabel e rho f n : noKN f n -> keeps_kn n (relabel e rho (on_cell f) n).
+Proof.
+  intros H tn r' Hr. unfold relabel in Hr. rewrite rows_of_map_rows in Hr. apply in_map_iff in Hr.
+  destruct Hr as [r [<- Hr]]. exists r. split; auto. unfold kn_cells. simpl.
+  apply (filter_kn_map (on_cell f tn) (fun c => rho (c_val c))). intros c Hc P. exact (H tn r c Hr Hc P).
+Qed.
+
+Lemma keeps_kn_relabel_none e rho n : keeps_kn n (relabel e rho (fun _ _ => false) n).
+Proof.
+  intros tn r' Hr. unfold relabel in Hr. rewrite rows_of_map_rows in Hr. apply in_map_iff in Hr.
+  destruct Hr as [r [<- Hr]]. exists r. split; auto. unfold kn_cells. simpl.
+  apply (filter_kn_map (fun _ => false) (fun c => rho (c_val c))). intros; discriminate.
+Qed.
+
+Lemma keeps_kn_sel_for s cs e rho n : noKN (selJ s cs) n -> noKN (selP s) n ->
+  keeps_kn n (relabel e rho (sel_for s cs e) n).
+Proof.
+  intros HJ HP. unfold sel_for. destruct (String.eqb e "junction"); [now apply keeps_kn_relabel|].
+  destruct (String.eqb e "pipe"); [now apply keeps_kn_relabel | apply keeps_kn_relabel_none].
+Qed.
+
+Lemma keeps_kn_redirect f j1 js n : noKN f n -> keeps_kn n (redirect (on_cell f) j1 js n).
+Proof.
+  intros H tn r' Hr. unfold redirect in Hr. rewrite rows_of_map_rows in Hr. apply in_map_iff in Hr.
+  destruct Hr as [r [<- Hr]]. exists r. split; auto. unfold kn_cells. simpl.
+  apply (filter_kn_map (fun c => on_cell f tn c && memz (c_val c) js) (fun _ => j1)).
+  intros c Hc P. apply andb_true_iff in P. destruct P as [P _]. exact (H tn r c Hr Hc P).
+Qed.
+
+Lemma keeps_kn_cont_all s cs order start n : noKN (selJ s cs) n -> noKN (selP s) n ->
+  keeps_kn n (cont_all s cs order start n).
+Proof.
+  revert n. induction order as [|e r IH]; intros n HJ HP; simpl.
+  - intros tn r' Hr. exists r'. auto.
+  - apply keeps_kn_trans with (cont_elem s cs e start n); [unfold cont_elem; now apply keeps_kn_sel_for|].
+    apply IH; unfold noKN, cont_elem; now apply allcells_relabel.
+Qed.
+
+Lemma step_keeps_kn s o n : noKN (selJ s (cs_of o)) n -> noKN (selP s) n -> keeps_kn n (step s o n).
+Proof.
+  intros HJ HP. destruct o; simpl in *.
+  - now apply keeps_kn_sel_for.
+  - now apply keeps_kn_sel_for.
+  - now apply keeps_kn_cont_all.
+  - eapply keeps_kn_trans; [apply keeps_kn_redirect; exact HJ | unfold drop_labels; apply keeps_kn_filter].
+  - unfold select. apply keeps_kn_filter.
+  - destruct cascade; unfold drop_elems_full, drop_pipe_refs, drop_elems, drop_labels.
+    + eapply keeps_kn_trans; [eapply keeps_kn_trans; [apply keeps_kn_filter | apply keeps_kn_filter] | apply keeps_kn_filter].
+    + apply keeps_kn_filter.
+  - unfold drop_elems_full, drop_pipe_refs, drop_elems. eapply keeps_kn_trans; apply keeps_kn_filter.
+  - unfold drop_pipe_refs, drop_elems, drop_labels. eapply keeps_kn_trans; apply keeps_kn_filter.
+  - now apply keeps_kn_redirect.
+  - unfold select_res. apply keeps_kn_filter.
+Qed.
+
+(* for today's code the hypotheses follow from exactness of the tuple set *)
+Lemma exact_noKN cs n : exact cs n -> noKN (selJ model_sem cs) n.
+Proof. intros H tn r c Hr Hc Hs K. rewrite (H tn r c Hr Hc) in Hs. rewrite K in Hs. discriminate. Qed.
+Lemma model_selP_noKN n : noKN (selP model_sem) n.
+Proof. intros tn r c Hr Hc Hs K. simpl in Hs. rewrite K in Hs. simpl in Hs. now rewrite andb_false_r in Hs. Qed.
